@@ -8,7 +8,7 @@ import warnings
 import numpy as np
 
 import progs
-from common import Check
+from common import Check, cbool, clist, cnat, copt, coq_eval_cases, cslice, ctuple, cz
 
 
 class RecordingSource:
@@ -24,7 +24,7 @@ class RecordingSource:
 
     def __getitem__(self, key):
         out = self._data[key]
-        self._log.append(("getitem", self._tag, repr(key), int(np.size(out))))
+        self._log.append(("getitem", self._tag, repr(key), int(np.size(out)), key))
         return out
 
     def __array__(self, dtype=None, copy=None):
@@ -78,14 +78,404 @@ def inspect_everything(x):
     return out
 
 
+# --------------------------------------------------------------------------
+# model correspondence: coq/theories/MetaModel.v  vs  dask_array._utils.meta_from_array / compute_meta
+# and FromArray._meta
+HEADER = "From DA Require Import PyBase MetaModel.\nOpen Scope Z_scope.\n"
+
+
+class DuckSource(RecordingSource):
+    """RecordingSource that dask.utils.is_arraylike accepts (a duck array: has __array_ufunc__)."""
+    __array_ufunc__ = None
+
+
+class RaisingSource(RecordingSource):
+    """logs the request, then refuses it (exercises the `except Exception` fallback of meta_from_array)"""
+
+    def __getitem__(self, key):
+        out = self._data[key]
+        self._log.append(("getitem", self._tag, repr(key), int(np.size(out)), key))
+        raise TypeError("this source does not support that index")
+
+
+def key_lit(key):
+    """index tuple of int/None slices -> Coq `list pslice` literal (None when it is anything else)"""
+    if not isinstance(key, tuple):
+        return None
+    for s in key:
+        if not isinstance(s, slice) or any(v is not None and not isinstance(v, (int, np.integer)) for v in (s.start, s.stop, s.step)):
+            return None
+    return clist(key, cslice)
+
+
+def requests_lit(log):
+    """[(idx, size)] literal of the getitem entries of a log; None if some request cannot be written"""
+    out = []
+    for e in log:
+        if e[0] != "getitem":
+            return None
+        k = key_lit(e[4])
+        if k is None:
+            return None
+        out.append(ctuple(k, cz(e[3])))
+    return "[" + "; ".join(out) + "]"
+
+
+def oracle_requests(chk, log, phase, where):
+    """the property itself: no request to a (non-NumPy) source may return elements"""
+    bad = [e for e in log if e[3] > 0]
+    for e in bad[:1]:
+        chk.violation(f"{phase} read data from a source: {e[0]}{e[2]} ({e[3]} element(s))", {**where, "requests": [x[:4] for x in bad[:3]]},
+                      signature={"class": "source-read", "how": e[0], "request": e[2], "phase": phase})
+    return not bad
+
+
+DTYPES = ["int64", "float32", "bool", "complex128"]
+
+
+def gen_shapes(rng, tier):
+    shapes = [()]
+    shapes += [(n,) for n in (0, 1, 2, 3, 7)]
+    shapes += [(a, b) for a in (0, 1, 2, 3) for b in (0, 1, 2, 3)]
+    for nd in (3, 4):
+        shapes += [tuple([k] * nd) for k in (0, 1, 2)]
+        for _ in range(120 if tier == "thorough" else 14):
+            shapes.append(tuple(rng.choice([0, 1, 1, 2, 3, 4]) for _ in range(nd)))
+    return shapes
+
+
+def mk_data(rng, shape, dtype):
+    n = int(np.prod(shape, dtype=int))
+    return (np.arange(1, n + 1) % 5 + 1).astype(dtype).reshape(shape)
+
+
+def fam_meta_from_array(chk, da):
+    """meta_from_array on recording sources: requests (index + size) and result shape == model"""
+    from dask_array._utils import meta_from_array
+    rng = chk.rng
+    inputs = [((), None, "int64", None, False)]          # corpus: F31, the 0-d source
+    for shape in gen_shapes(rng, chk.tier):
+        nd = len(shape)
+        targets = sorted({0, max(nd - 1, 0), nd, nd + 1, nd + 2}) + [None]
+        for t in targets:
+            combos = [(d, a) for d in DTYPES for a in (None, "same", "float64")] if chk.tier == "thorough" else \
+                [(rng.choice(DTYPES), rng.choice([None, "same", "float64"])) for _ in range(2)]
+            for d, a in combos:
+                inputs.append((shape, t, d, d if a == "same" else a, False))
+            if rng.random() < 0.35:
+                inputs.append((shape, t, rng.choice(DTYPES), None, True))
+    cases, kept = [], []
+    for (shape, t, d, dt_arg, raises) in inputs:
+        log = []
+        src = (RaisingSource if raises else RecordingSource)(mk_data(rng, shape, d), log, 0)
+        with warnings.catch_warnings():
+            warnings.simplefilter("ignore")
+            meta = meta_from_array(src, ndim=t, dtype=dt_arg)
+        where = {"call": f"meta_from_array(<{'raising ' if raises else ''}array-like shape={shape} dtype={d}>, ndim={t}, dtype={dt_arg})"}
+        rel = "none" if t is None else "zero" if t == 0 and len(shape) > 0 else "smaller" if t < len(shape) else "equal" if t == len(shape) else "larger"
+        chk.count(f"meta_from_array:xndim{len(shape)}:target-{rel}" + (":raises" if raises else ""))
+        chk.case(("mfa", shape, t, d, dt_arg, raises), nontrivial=len(shape) > 0,
+                 sample={**where, "requests": [e[:4] for e in log], "meta_shape": tuple(meta.shape)} if len(cases) in (0, 40) else None)
+        ok = oracle_requests(chk, log, "meta_from_array", where)
+        want_nd = len(shape) if t is None else t
+        if not isinstance(meta, np.ndarray) or (want_nd >= 1 and meta.size > 0):
+            ok = False
+            chk.violation(f"meta_from_array returned a non-empty / non-array meta {type(meta).__name__} shape {getattr(meta, 'shape', None)}", where,
+                          signature={"class": "nonempty-meta", "phase": "meta_from_array"})
+        reqs = requests_lit(log)
+        if reqs is None:
+            chk.tie_break("correspondence:meta_from_array made a request the model cannot express", {**where, "requests": [e[:4] for e in log]})
+            continue
+        cases.append(ctuple(cbool(raises), clist(shape), copt(t, cnat), reqs, clist(meta.shape)))
+        kept.append((where, [e[:4] for e in log], tuple(meta.shape)))
+        if ok:
+            chk.traces_validated += 1
+    mism, _ = coq_eval_cases(
+        HEADER, "bool * list Z * option nat * list (list pslice * Z) * list Z",
+        "Definition chk (c : bool * list Z * option nat * list (list pslice * Z) * list Z) : bool :=\n"
+        "  let '(r, xs, nd, reqs, out) := c in\n"
+        "  requests_eqb (map fst reqs) (meta_from_array_requests (length xs)) && forallb (logged_request_ok xs) reqs\n"
+        "  && zlist_eqb out (meta_from_array_shape_gen r xs nd).",
+        cases)
+    for i in mism[:5]:
+        chk.tie_break("correspondence:meta_from_array (requests / request sizes / result shape differ from the model)",
+                      {**kept[i][0], "impl_requests": kept[i][1], "impl_meta_shape": kept[i][2]})
+    chk.traces_validated += len(cases) - len(mism)
+
+
+def fam_from_array_meta(chk, da):
+    """da.from_array over a recording source + every metadata accessor: the source sees exactly the one
+    request of FromArray._meta (cached), and the meta has the model's shape"""
+    rng = chk.rng
+    cases, kept = [], []
+    shapes = gen_shapes(rng, chk.tier)
+    if chk.tier != "thorough":
+        shapes = shapes[:30] + rng.sample(shapes[30:], 10)
+    for shape in shapes:
+        log = []
+        d = rng.choice(DTYPES)
+        src = RecordingSource(mk_data(rng, shape, d), log, 0)
+        chunks = tuple(rng.choice([max(n, 1), 1, 2]) for n in shape)
+        where = {"call": f"da.from_array(<array-like shape={shape} dtype={d}>, chunks={chunks}) + metadata accessors"}
+        try:
+            with warnings.catch_warnings():
+                warnings.simplefilter("ignore")
+                x = da.from_array(src, chunks=chunks)
+                m1, m2 = x._meta, x.expr._meta
+                _ = (x.shape, x.chunks, x.dtype, x.name, x.numblocks, x.ndim, x.size, x.nbytes, repr(x), x.__dask_keys__())
+                o = x.optimize()
+                _ = (o._meta, o.chunks, x._meta, x.expr._meta)
+        except Exception as e:  # noqa: BLE001
+            chk.count("from_array:skipped:" + err_sig(e)[:24])
+            continue
+        chk.count(f"from_array:xndim{len(shape)}")
+        chk.case(("fa", shape, chunks, d), nontrivial=len(shape) > 0,
+                 sample={**where, "requests": [e[:4] for e in log], "meta_shape": tuple(m1.shape)} if len(cases) == 7 else None)
+        ok = oracle_requests(chk, log, "construction", where)
+        reqs = requests_lit(log)
+        if reqs is None or m1 is not m2:
+            chk.tie_break("correspondence:FromArray._meta (request not expressible / meta not cached)", {**where, "requests": [e[:4] for e in log]})
+            continue
+        cases.append(ctuple(clist(shape), reqs, clist(m1.shape)))
+        kept.append((where, [e[:4] for e in log], tuple(m1.shape)))
+        if ok:
+            chk.traces_validated += 1
+    mism, _ = coq_eval_cases(
+        HEADER, "list Z * list (list pslice * Z) * list Z",
+        "Definition chk (c : list Z * list (list pslice * Z) * list Z) : bool := let '(xs, reqs, out) := c in\n"
+        "  requests_eqb (map fst reqs) (from_array_meta_requests (length xs)) && forallb (logged_request_ok xs) reqs\n"
+        "  && zlist_eqb out (from_array_meta_shape xs).",
+        cases)
+    for i in mism[:5]:
+        chk.tie_break("correspondence:FromArray._meta (requests / result shape differ from the model)",
+                      {**kept[i][0], "impl_requests": kept[i][1], "impl_meta_shape": kept[i][2]})
+    chk.traces_validated += len(cases) - len(mism)
+
+
+REC = []
+
+
+def shape_of(v):
+    return tuple(int(n) for n in v.shape) if isinstance(v, (np.ndarray, np.generic)) else None
+
+
+def rec_func(*a, **k):
+    """the recorded `user function` of compute_meta: logs the shapes / sizes of what it is called with"""
+    REC.append(([(shape_of(v), int(np.size(v)) if shape_of(v) is not None else 0) for v in a],
+                [(shape_of(v), int(np.size(v)) if shape_of(v) is not None else 0) for v in k.values()]))
+    for v in list(a) + list(k.values()):
+        if isinstance(v, np.ndarray):
+            return v
+    return np.empty((0,))
+
+
+def real_arrays(chk, da):
+    """a pool of real dask_array collections (hand-written incl. 0-d and expanded 0-d ones + generated programs);
+    checks the meta invariant on every node of every expression and returns [(label, Array)]"""
+    from dask_array._expr import ArrayExpr
+    rng = chk.rng
+    x = da.from_array(np.arange(24).reshape(2, 3, 4), chunks=(1, 2, 2))
+    v = da.from_array(np.arange(6), chunks=3)
+    z = da.from_array(np.array(7), chunks=())
+    pool = [("v.sum()[None]", v.sum()[None]),                          # corpus: C29-B (meta shape (1,))
+            ("x.sum()", x.sum()), ("from_array(0-d)", z),              # corpus: F33 (0-d metas)
+            ("from_array(0-d)[None]", z[None]), ("x", x), ("v", v), ("x.sum(axis=1)", x.sum(axis=1)), ("x[0]", x[0]), ("x[0,0,0]", x[0, 0, 0]),
+            ("x[:,None]", x[:, None]), ("x.T", x.T), ("x+1", x + 1), ("x.mean()", x.mean()), ("x.argmax()", x.argmax()),
+            ("concatenate", da.concatenate([x, x])), ("x.reshape", x.reshape(6, 4)), ("x.rechunk(2)", x.rechunk(2)),
+            ("x.cumsum(0)", x.cumsum(axis=0)), ("x.max((0,1))", x.max(axis=(0, 1))), ("x[[0,1]]", x[[0, 1]]),
+            ("v.sum()[None,None]+x[0]", v.sum()[None, None] + x[0]), ("zeros((0,3))", da.zeros((0, 3), chunks=2)),
+            ("x.map_blocks(dtype)", x.map_blocks(progs.mb_double, dtype=x.dtype))]
+    for _ in range(600 if chk.tier == "thorough" else 60):
+        g = progs.Gen(rng, ops=progs.CORE_OPS + ["swv", "roll", "take", "repeat", "broadcast_to", "reshape"], sources=[])
+        p, _v = g.program(rng.choice([1, 2, 3, 4]))
+        try:
+            with warnings.catch_warnings():
+                warnings.simplefilter("ignore")
+                pool.append((progs.show(p)[:60], progs.build(p, da, list(g.sources), memo={})))
+        except Exception as e:  # noqa: BLE001
+            chk.count("compute_meta:pool-skipped:" + err_sig(e)[:24])
+    # ASSUMPTION CHECK of C29_compute_meta_calls_on_empty on every node: _meta has no elements unless 0-d
+    # (and, informative only, the nominal invariant _meta.shape == (0,)*ndim)
+    for label, arr in pool:
+        with warnings.catch_warnings():
+            warnings.simplefilter("ignore")
+            roots = [arr.expr]
+            try:
+                roots.append(arr.optimize().expr)
+            except Exception:  # noqa: BLE001
+                pass
+        for ri, root in enumerate(roots):
+            nodes = [n for n in root.walk() if isinstance(n, ArrayExpr)]
+            bad = {}
+            for n in nodes:
+                m = n._meta
+                sh = getattr(m, "shape", None)
+                chk.count("expr-meta-invariant:nodes-checked")
+                if sh is None:
+                    chk.count("expr-meta-invariant:no-shape:" + type(n).__name__)
+                    continue
+                if tuple(sh) != (0,) * n.ndim:
+                    chk.count("expr-meta-invariant:not-nominal-but-" + ("NONEMPTY" if np.size(m) > 0 else "empty"))
+                if len(sh) >= 1 and np.size(m) > 0:
+                    bad[n._name] = n
+            for n in bad.values():
+                if not any(getattr(dep, "_name", None) in bad for dep in n.dependencies()):     # where it starts
+                    chk.violation(f"the _meta of a {n.ndim}-d {type(n).__name__} node has {np.size(n._meta)} element(s) (shape {tuple(n._meta.shape)}): "
+                                  "whatever is called on it while building runs on a non-empty array",
+                                  {"expression": label, "node": type(n).__name__, "meta_shape": tuple(n._meta.shape), "ndim": n.ndim},
+                                  signature={"class": "nonempty-expr-meta", "origin": type(n).__name__, "expression": "optimized" if ri else "as-built"})
+    return pool
+
+
+def cmarg(a):
+    kind, sh = a
+    return "MOther" if kind == "MOther" else f"({kind} {clist(sh)})"
+
+
+def fam_compute_meta(chk, da):
+    """compute_meta(rec_func, dtype, *args, **kwargs) with expressions, collections, duck sources, non-duck
+    objects and scalars: per-argument requests and the shapes rec_func is called with == model"""
+    from dask_array._utils import compute_meta
+    rng = chk.rng
+    pool = real_arrays(chk, da)
+    shapes = gen_shapes(rng, "quick")
+
+    def make_arg(kind, pos, forced=None):
+        """-> (python object, model literal tuple, log or None, description)"""
+        if kind == "expr":
+            label, arr = forced or rng.choice(pool)
+            m = arr.expr._meta
+            return arr.expr, ("MExprArg", tuple(m.shape)), None, f"<expr {label}>"
+        if kind == "coll":
+            label, arr = forced or rng.choice(pool)
+            return arr, ("MCollection", tuple(arr._meta.shape)), None, f"<Array {label}>"
+        if kind == "duck":
+            shape = forced if forced is not None else rng.choice(shapes)
+            log = []
+            return DuckSource(mk_data(rng, shape, rng.choice(DTYPES)), log, pos), ("MArrayLike", shape), log, f"<duck array-like {shape}>"
+        if kind == "nonduck":
+            shape = rng.choice(shapes)
+            log = []
+            return RecordingSource(mk_data(rng, shape, "int64"), log, pos), ("MOther", None), log, f"<non-duck array-like {shape}>"
+        val = rng.choice([3, 2.5, "abc", None, True, (1, 2)])
+        return val, ("MOther", None), None, repr(val)
+
+    plans = [([("expr", pool[0])], []),                       # corpus C29-B: expression meta of shape (1,)
+             ([("expr", pool[1])], []),                       # corpus F33: 0-d expression
+             ([("duck", ())], []),                            # corpus F31 through compute_meta
+             ([("coll", pool[2])], []), ([("coll", pool[3])], [("duck", (2, 3))])]
+    for lab_arr in pool:
+        plans.append(([("expr", lab_arr)], []))
+        plans.append(([("coll", lab_arr)], []))
+    for _ in range(6000 if chk.tier == "thorough" else 600):
+        na, nk = rng.choice([1, 1, 2, 3, 4]), rng.choice([0, 0, 0, 1, 2])
+        plans.append(([(rng.choice(["expr", "expr", "coll", "duck", "duck", "nonduck", "scalar"]), None) for _ in range(na)],
+                      [(rng.choice(["expr", "coll", "duck", "scalar"]), None) for _ in range(nk)]))
+    cases, kept = [], []
+    for (pa, pk) in plans:
+        args = [make_arg(k, i, f) for i, (k, f) in enumerate(pa)]
+        kwargs = [make_arg(k, len(pa) + i, f) for i, (k, f) in enumerate(pk)]
+        del REC[:]
+        where = {"call": "compute_meta(rec_func, %s, %s%s)" % (
+            "None", ", ".join(a[3] for a in args), "".join(f", k{i}={a[3]}" for i, a in enumerate(kwargs)))}
+        with warnings.catch_warnings():
+            warnings.simplefilter("ignore")
+            compute_meta(rec_func, rng.choice([None, "float64"]), *[a[0] for a in args], **{f"k{i}": a[0] for i, a in enumerate(kwargs)})
+        calls = list(REC)
+        for a in args + kwargs:
+            chk.count("compute_meta:arg:" + a[1][0] + ("" if a[1][1] is None else f":ndim{min(len(a[1][1]), 3)}"))
+        chk.case(("cm", where["call"]), nontrivial=len(args) + len(kwargs) > 1 or args[0][1][1] not in (None, ()),
+                 sample={**where, "func_called_with": calls} if len(cases) in (0, 1, 60) else None)
+        ok = True
+        # the property itself
+        for a in args + kwargs:
+            if a[2] is not None:
+                ok &= oracle_requests(chk, a[2], "compute_meta", where)
+        for (ca, ck) in calls:
+            for (sh, size), a in zip(ca + ck, args + kwargs):
+                if sh is not None and size > 0:
+                    ok = False
+                    cause = "zero-dim" if len(sh) == 0 else "nonempty-expr-meta" if a[1][0] == "MExprArg" else "other"
+                    chk.violation(f"compute_meta called the user function on a non-empty array: shape {sh}, {size} element(s) ({a[3]})",
+                                  {**where, "func_called_with": calls},
+                                  signature={"class": "block-function-called", "phase": "compute_meta", "arg_ndim": len(sh), "cause": cause})
+        per_arg = []
+        for a in args + kwargs:
+            r = "[]" if a[2] is None else requests_lit(a[2])
+            per_arg.append(r)
+        if any(r is None for r in per_arg):
+            chk.tie_break("correspondence:compute_meta made a request the model cannot express", where)
+            continue
+        cases.append(ctuple(clist([a[1] for a in args], cmarg), clist([a[1] for a in kwargs], cmarg), "[" + "; ".join(per_arg) + "]",
+                            clist(calls, lambda c: ctuple(clist([s for s, _ in c[0]], lambda s: copt(s, clist)),
+                                                          clist([s for s, _ in c[1]], lambda s: copt(s, clist))))))
+        kept.append((where, calls, [[e[:4] for e in a[2]] if a[2] is not None else None for a in args + kwargs]))
+        if ok:
+            chk.traces_validated += 1
+    ty = "list marg * list marg * list (list (list pslice * Z)) * list (list (option (list Z)) * list (option (list Z)))"
+    mism, _ = coq_eval_cases(
+        HEADER, ty,
+        f"Definition chk (c : {ty}) : bool := let '(args, kwargs, reqs, calls) := c in\n"
+        "  list_eqb requests_eqb (map (map fst) reqs) (compute_meta_requests args kwargs)\n"
+        "  && forallb (fun p => match fst p with MArrayLike sh => forallb (logged_request_ok sh) (snd p) | _ => match snd p with [] => true | _ => false end end)\n"
+        "       (combine (args ++ kwargs) reqs)\n"
+        "  && list_eqb call_eqb calls (compute_meta_calls args kwargs).",
+        cases, chunk=200)
+    for i in mism[:5]:
+        chk.tie_break("correspondence:compute_meta (requests / argument shapes of the call differ from the model)",
+                      {**kept[i][0], "impl_calls": kept[i][1], "impl_requests_per_arg": kept[i][2]})
+    chk.traces_validated += len(cases) - len(mism)
+
+
+def fam_infer_dtype(chk, da):
+    """map_blocks WITHOUT dtype= / meta=: compute_meta(func, None, <Array>...) and apply_infer_dtype both call
+    the user function while the expression is being built (the generated programs always pass dtype=)"""
+    v = da.from_array(np.arange(6), chunks=3)
+    for label, arr in [("1-d", v), ("2-d", da.from_array(np.arange(6).reshape(2, 3), chunks=2)), ("0-d", v.sum())]:
+        del CALLS[:]
+        arr.map_blocks(rec_block)
+        chk.case(("map_blocks-no-dtype", label), nontrivial=True)
+        chk.count("map_blocks-without-dtype")
+        called = [c for c in CALLS if c[2] > 0]
+        if called and arr.ndim > 0:
+            chk.violation(f"map_blocks without dtype= called the user function on a non-empty block {called[0][1]} while building (dtype inference)",
+                          {"program": f"<{label} array>.map_blocks(f)", "calls": list(CALLS)},
+                          signature={"class": "block-function-called", "phase": "apply_infer_dtype", "block_shape": "(1,)*ndim"})
+        elif called:
+            chk.violation("map_blocks without dtype= called the user function on a 0-d (one element) array while building",
+                          {"program": f"<{label} array>.map_blocks(f)", "calls": list(CALLS)},
+                          signature={"class": "block-function-called", "phase": "compute_meta", "arg_ndim": 0, "cause": "zero-dim"})
+        else:
+            chk.traces_validated += 1
+    del CALLS[:]
+
+
+def fam_meta_model(chk, da):
+    fam_meta_from_array(chk, da)
+    fam_from_array_meta(chk, da)
+    fam_compute_meta(chk, da)
+    fam_infer_dtype(chk, da)
+
+
 def run(chk: Check):
     import dask_array as da
     chk.rule = ("generated programs whose sources are recording non-NumPy array-likes and which contain recording user block functions "
                 "(map_blocks with and without block_info): constructing the expression and reading shape / chunks / dtype / name / keys / "
                 "repr / len / numblocks / nbytes / transfer estimates / chunk_report / explain / simplify / optimize must not request a "
                 "non-empty selection from any source nor call a block function on a non-empty block; afterwards compute() must read "
-                "data (the recorder works) and equal NumPy; non-trivial = more than one node")
+                "data (the recorder works) and equal NumPy; non-trivial = more than one node.  "
+                "Model family (fam_meta_model): the real meta_from_array (recording / raising sources, ndim 0..4, zero- and one-length axes, "
+                "4 dtypes, ndim= None/0/smaller/equal/larger), FromArray._meta through da.from_array + all accessors, and compute_meta "
+                "(recording user function; expression, collection, duck-source, non-duck and scalar arguments, positional and keyword) "
+                "are compared EXACTLY (requests with the size of what they returned, result shapes, argument shapes of the single call) "
+                "with the Gallina model of coq/theories/MetaModel.v evaluated in Coq; independently every request that returned elements, "
+                "every non-empty function argument and every expression node whose _meta has elements (ndim >= 1) is a violation")
+    chk.assumptions = ["a source's __getitem__ returns an object distinct from the source (NumPy for the recorder): later indexing of the meta does not reach the source",
+                       "the hypothesis of C29_compute_meta_calls_on_empty (expression metas have no elements unless 0-d) is checked on every node of the "
+                       "real expressions of the pool; its known exceptions are finding C29-B",
+                       "dtypes are not modelled (astype keeps shapes and makes no request)"]
     chk.run_proofs()
+    fam_meta_model(chk, da)
     rng = chk.rng
     # corpus: F31 0-d source
     log0 = []
